@@ -57,6 +57,8 @@ def gen_bus(rng, n_ops):
     ty = {t: TYPES[int(rng.integers(len(TYPES)))] for t in TOPICS}
     sub_id = 10
     for t in topics:
+        if rng.random() < 0.3:      # a subscriber constructed BEFORE the publisher of its topic
+            ops.append("sub %s %d" % (t, sub_id)); sub_id += 1
         ops.append("adv %s %s" % (t, ty[t]))
         if rng.random() < 0.15:
             ops.append("adv %s %s" % (t, ty[t]))        # duplicate publisher: assertion
